@@ -80,10 +80,28 @@ func main() {
 			"what":    "mutation corpus: one rule instance broken per scratch copy of /repo; the rule must report it (tests the analysis, the library is never executed)",
 			"results": st, "counts": n,
 		}
+		base := map[string]bool{}
+		for _, o := range res.obs {
+			if o.Verdict != "discharged" {
+				base[o.FullKey()] = true
+			}
+		}
+		nt, nOK := runNeutralTest(p.ID, *repo, base)
+		nn := map[string]int{}
+		for _, r := range nt {
+			nn[r.Status]++
+		}
+		extra["checker_neutral_test"] = map[string]interface{}{
+			"what":   "behaviour-preserving refactorings of /repo (corpus /verif/refactors) applied to scratch copies: the check must report nothing it does not report on the tree itself",
+			"counts": nn,
+		}
+		if !nOK {
+			selfOK = false
+		}
 	}
 	code := report(p, *tier, seed, res, start, extra, !*noEvidence)
 	if !selfOK {
-		fmt.Println("CHECKER-ERROR a located mutant of the self-test corpus was not reported: the checker is broken (this is not a statement about /repo)")
+		fmt.Println("CHECKER-ERROR the checker self-test failed (a located mutant was not reported, or a behaviour-preserving refactoring raised an alarm): the checker is broken; this is not a statement about /repo")
 		if code == 0 {
 			code = 2
 		}
